@@ -351,6 +351,9 @@ func (c *FuncCtx) checkFrame(st *State, env map[string]*Val) {
 		}
 	}
 	for _, k := range sortedKeys(st.heap) {
+		if isTraceKey(k) {
+			continue
+		}
 		cur := st.heap[k]
 		parts := strings.SplitN(k, ".", 2)
 		entry := fmt.Sprintf("H_%s_%s", parts[0], parts[1])
@@ -360,6 +363,10 @@ func (c *FuncCtx) checkFrame(st *State, env map[string]*Val) {
 		r := c.bvar("r")
 		var excl []string
 		for _, ref := range cells[k] {
+			excl = append(excl, mkEq(r, ref))
+		}
+		// objects allocated by this call are not part of the caller's frame
+		for _, ref := range st.allocs {
 			excl = append(excl, mkEq(r, ref))
 		}
 		goal := fmt.Sprintf("(forall ((%s Int)) %s)", r, mkImplies(mkNot(mkOr(excl...)), mkEq(mkSel(cur, r), mkSel(entry, r))))
